@@ -46,7 +46,7 @@ var c05Alphabet = func() []c05Cmd {
 		{"CCreate", "CREATE a", nil, 1}, {"CDelete", "DELETE a", nil, 1}, {"CRename", "RENAME a b", nil, 1},
 		{"CSubscribe", "SUBSCRIBE a", nil, 1}, {"CUnsubscribe", "UNSUBSCRIBE a", nil, 1},
 		{"CList", `LIST "" *`, nil, 1}, {"CLsub", `LSUB "" *`, nil, 1}, {"CStatus", "STATUS a (MESSAGES)", nil, 1},
-		{"CAppend", "APPEND a {3}", []string{"abc\r\n"}, 1}, {"CNamespace", "NAMESPACE", nil, 1}, {"CIdle", "IDLE", []string{"DONE\r\n"}, 1},
+		{"CAppend", "APPEND a {3}", []string{"abc\r\n"}, 1}, {"CAppend", "APPEND a {3+}\r\nabc", nil, 1}, {"CNamespace", "NAMESPACE", nil, 1}, {"CIdle", "IDLE", []string{"DONE\r\n"}, 1},
 		{"CClose", "CLOSE", nil, 2}, {"CUnselect", "UNSELECT", nil, 1}, {"CExpunge", "EXPUNGE", nil, 1}, {"CUidExpunge", "UID EXPUNGE 1:*", nil, 1},
 		{"(CFetch false)", "FETCH 1 FLAGS", nil, 1}, {"(CFetch true)", "UID FETCH 1 FLAGS", nil, 1},
 		{"(CStore false)", `STORE 1 +FLAGS (\Seen)`, nil, 1}, {"(CStore true)", `UID STORE 1 +FLAGS (\Seen)`, nil, 1},
@@ -89,7 +89,7 @@ type c05Step struct {
 func runC05(h *H) {
 	imports := []string{"From GoImap.Base Require Import Bytes.", "From GoImap.Model Require Import ServerConn ServerConnCorr."}
 	corr := h.NewCorr("serve", imports, "sc_mismatches", 250).Type("sc_case")
-	h.Rule("command sequences over the full command alphabet (36 forms incl. UID variants, AUTHENTICATE PLAIN, IDLE, APPEND with a synchronising literal, STARTTLS with a real handshake, an unknown command), each backend call scripted to succeed or fail, on a raw connection to the real server for the configurations {implicit TLS, plaintext} x {TLSConfig} x {InsecureAuth} x {greeting OK, PREAUTH} x {UNAUTHENTICATE supported} x {backend with its own SASL mechanisms (SessionSASL) or the built-in PLAIN}. Observed per command: tagged class, BYE/close, the backend calls with the connection state each saw (verif hook), state and transport afterwards. Exhaustive up to the tier's length from several start prefixes plus seeded random longer sequences. Oracle: every call permitted by RFC 9051 in the state it saw; Login only over TLS unless InsecureAuth; nothing processed after LOGOUT/BYE. Non-trivial = at least one backend call was made or refused for state/TLS reasons; distinct by (config, sequence, outcomes).")
+	h.Rule("command sequences over the full command alphabet (36 forms incl. UID variants, AUTHENTICATE PLAIN, IDLE, APPEND with a synchronising and with a non-synchronising literal, STARTTLS with a real handshake, an unknown command), each backend call scripted to succeed or fail, on a raw connection to the real server for the configurations {implicit TLS, plaintext} x {TLSConfig} x {InsecureAuth} x {greeting OK, PREAUTH} x {UNAUTHENTICATE supported} x {backend with its own SASL mechanisms (SessionSASL) or the built-in PLAIN}. Observed per command: tagged class, BYE/close, the backend calls with the connection state each saw (verif hook), state and transport afterwards. Exhaustive up to the tier's length from several start prefixes plus seeded random longer sequences. Oracle: every call permitted by RFC 9051 in the state it saw; Login only over TLS unless InsecureAuth; nothing processed after LOGOUT/BYE. Non-trivial = at least one backend call was made or refused for state/TLS reasons; distinct by (config, sequence, outcomes).")
 
 	var cfgs []srvCfg
 	for m := 0; m < 64; m++ {
